@@ -3,9 +3,11 @@ CONSTANTS
  K = 2
  Alpha = 2
  Target = 0
+ GenHist = FALSE
  DedupAtPop = TRUE
  CaptureUnderLock = TRUE
  TraceMode = FALSE
+ Strict = TRUE
 SPECIFICATION Spec
 INVARIANTS AlphaBound OncePerAddr FilterFirst ClosestOK StallPredicate HonestResult
 CHECK_DEADLOCK FALSE
